@@ -9,7 +9,6 @@ use crate::spec::Spec;
 use serde_json::{json, Value};
 use std::collections::BTreeMap;
 use std::ffi::CString;
-use std::io::Write;
 use std::os::unix::ffi::OsStrExt;
 use std::path::{Path, PathBuf};
 
@@ -609,82 +608,7 @@ fn stat_from_json(v: &Value) -> ShimStat {
     }
 }
 
-/// Fork a child, run `f` in it (which must write its result to the given fd
-/// and `_exit`), and return what it wrote, or how it died.
-pub fn fork_collect(timeout_ms: i32, f: impl FnOnce(i32)) -> Result<String, Class> {
-    let mut fds = [0i32; 2];
-    unsafe {
-        if libc::pipe(fds.as_mut_ptr()) != 0 {
-            return Err(Class::Abort("pipe failed".into()));
-        }
-        // flush our own buffered stdout so the child does not duplicate it
-        let _ = std::io::stdout().flush();
-        let pid = libc::fork();
-        if pid < 0 {
-            return Err(Class::Abort("fork failed".into()));
-        }
-        if pid == 0 {
-            libc::close(fds[0]);
-            f(fds[1]);
-            libc::_exit(3);
-        }
-        libc::close(fds[1]);
-        let mut buf: Vec<u8> = vec![];
-        let mut timed_out = false;
-        let mut left = timeout_ms;
-        loop {
-            let mut pfd = libc::pollfd { fd: fds[0], events: libc::POLLIN, revents: 0 };
-            let step = 1000.min(left.max(1));
-            let r = libc::poll(&mut pfd, 1, step);
-            if r == 0 {
-                left -= step;
-                if left <= 0 {
-                    timed_out = true;
-                    libc::kill(pid, libc::SIGKILL);
-                    break;
-                }
-                continue;
-            }
-            if r < 0 {
-                if *libc::__errno_location() == libc::EINTR {
-                    continue;
-                }
-                break;
-            }
-            let mut tmp = [0u8; 65536];
-            let n = libc::read(fds[0], tmp.as_mut_ptr() as *mut libc::c_void, tmp.len());
-            if n < 0 {
-                if *libc::__errno_location() == libc::EINTR {
-                    continue;
-                }
-                break;
-            }
-            if n == 0 {
-                break;
-            }
-            buf.extend_from_slice(&tmp[..n as usize]);
-        }
-        libc::close(fds[0]);
-        let mut status = 0i32;
-        loop {
-            let r = libc::waitpid(pid, &mut status, 0);
-            if r < 0 && *libc::__errno_location() == libc::EINTR {
-                continue;
-            }
-            break;
-        }
-        if timed_out {
-            return Err(Class::Timeout);
-        }
-        if libc::WIFSIGNALED(status) {
-            return Err(Class::Abort(format!("signal {}", libc::WTERMSIG(status))));
-        }
-        if libc::WIFEXITED(status) && libc::WEXITSTATUS(status) != 0 {
-            return Err(Class::Abort(format!("exit status {}", libc::WEXITSTATUS(status))));
-        }
-        String::from_utf8(buf).map_err(|_| Class::Abort("child wrote invalid utf-8".into()))
-    }
-}
+pub use crate::forkrun::fork_collect;
 
 fn run_rcomp(env: &Env, target: &GrammarSrc, spec: &Spec, world: &World, l: &Layout) -> Outcome {
     use std::process::{Command, Stdio};
@@ -857,8 +781,11 @@ pub fn run_world_with(env: &Env, target: &GrammarSrc, spec: &Spec, world: &World
     let mut out = match world.vehicle {
         Vehicle::Rcomp | Vehicle::RcompDir => run_rcomp(env, target, spec, world, &l),
         _ => match fork_collect(env.timeout_ms, |wfd| { child_main(env, target, spec, world, &l, wfd) }) {
-            Err(class) => Outcome {
-                class,
+            Err(end) => Outcome {
+                class: match end {
+                    crate::forkrun::ChildEnd::Abort(m) => Class::Abort(m),
+                    crate::forkrun::ChildEnd::Timeout => Class::Timeout,
+                },
                 files: BTreeMap::new(),
                 stat: ShimStat::default(),
                 events: vec![],
